@@ -254,6 +254,9 @@ STATE_DOCS = [
     "See [the guide][1] and [x][two].\n\n[1]: https://a.example/guide\n[two]: /two \"T\"\n",
     "Read [the guide](https://a.example/guide) and [the changelog][1].\n\n[1]: https://b.example/changelog\n",
     "[a](https://a.example/guide \"T\") [b][1]\n\n[1]: https://a.example/guide \"T\"\n",
+    # the same label set with other destinations (state keyed by labels only would confuse these)
+    "[x][1] and [y](/b) and [z][2].\n\n[1]: /a\n[2]: /b\n", "[x][1] and [y](/a) and [z](/b).\n\n[1]: /b\n[2]: /a\n",
+    "[x][1] and [y](/c).\n\n[1]: /c \"T\"\n[2]: /a\n",
     "Intro\n\n| a | b |\n|---|---|\n| 42 | x |\n", "| 1\\. Setup | x |\n|---|---|\n| 2\\. Build | y |\n\nAfter table.\n",
     "1\\. Not a list, just text.\n", "2025\\. That was the year.\n\n| h |\n|---|\n| 7 |\n",
     "- a\n- b\n\n  second\n", "- a\n\n- b\n", "1. x\n   - nested\n\n     more\n", "> quote end\n", "> - q list\n> - b\n", "```py\ncode\n```\n",
